@@ -64,7 +64,22 @@ def run_item(it):
                 decb_to_b09.start(argv + [src, "-"])
                 data = mine.getvalue().encode("utf-8", "replace")
             else:
-                decb_to_b09.start(argv + [src, dst])
+                # the same file named in different ways (absolute, bare name from inside its directory, relative from the
+                # directory above) - which one depends on the process, so that processes can be compared: the procedure is
+                # named after the FILE, not after the way to it
+                how = int(os.environ.get("PYTHONHASHSEED", "0") or 0) % 3
+                cwd = os.getcwd()
+                try:
+                    if how == 1:
+                        os.chdir(d)
+                        decb_to_b09.start(argv + [os.path.basename(src), dst])
+                    elif how == 2:
+                        os.chdir(os.path.dirname(d))
+                        decb_to_b09.start(argv + [os.path.join(os.path.basename(d), os.path.basename(src)), dst])
+                    else:
+                        decb_to_b09.start(argv + [src, dst])
+                finally:
+                    os.chdir(cwd)
                 with open(dst, "rb") as f:
                     data = f.read()
         except BaseException as exc:  # noqa: BLE001 - SystemExit included
